@@ -18,6 +18,10 @@ def impl(case):
             out[name] = f()
         except Exception as e:  # noqa
             out[name] = "!" + type(e).__name__ + ": " + str(e)[:80]
+    try:
+        out["single_legs"] = max([sum(1 for leg in m.get_legs()[1:] if len(leg) == 1) for m in fresh().get_class().get_morphs()] or [0])
+    except Exception:  # noqa
+        out["single_legs"] = -1
     if case.get("space"):
         try:
             out["space"] = sorted(str(v) for v in fresh().get_space())
@@ -72,6 +76,8 @@ def main():
         g = [s for s in g]
         x = queries(ck.rng, n, g, c.split())
         cases.append({"n": n, "gens": g, "query": x, "space": n <= (3 if ck.quick else 4) and ck.rng.random() < 0.5})
+    # corpus: the recorded witness of the known finding (a member of the closure not recognised on a graph with 5 single legs)
+    cases.append({"n": 6, "gens": ["ZIXYIZ", "XIIXXY", "IIZYXI", "IIYXZI", "YXIYYY", "ZIYYII"], "query": ["ZXYIXZ"], "space": False})
     res = ck.impl("c08", cases, per_case_s=120)
     ans = ck.oracle(["member %d %s %s" % (c["n"], ",".join(c["gens"]), ",".join(c["query"])) for c in cases])
     sp = ck.oracle(["space %d %s" % (c["n"], ",".join(c["gens"])) for c in cases])
@@ -100,7 +106,9 @@ def main():
         if len(want_sel) not in (0, len(c["query"])) or want_in:
             nt.add((tuple(c["gens"]), tuple(c["query"])))
         if bad:
-            ck.fail(None, "G=%s X=%s: %s" % (c["gens"], c["query"], "; ".join(bad)), dict(c, implementation=r, model=a, differences=bad))
+            # known finding: dependency detection is incomplete on canonical graphs with >= 4 single legs
+            key = "membership-on-graph-with-4-or-more-single-legs" if r.get("single_legs", 0) >= 4 else None
+            ck.fail(key, "G=%s X=%s: %s" % (c["gens"], c["query"], "; ".join(bad)), dict(c, implementation=r, model=a, differences=bad))
     ck.cov["evaluations"] = len(cases)
     ck.cov["distinct_nontrivial"] = len(nt)
     ck.cov["rule"] = ("(G, X): G from exhaustive/structured/uniform streams n<=%d, X from members of the closure, one-letter near misses, strings commuting with all of G, "
